@@ -906,7 +906,7 @@ class XsdAssertionFacet(XsdFacet):
                 raise XMLSchemaValidationError(self, value, reason)
         except TypeError as err:
             self.invalid_type_error(err, value)
-        except ElementPathError as err:
+        except (ElementPathError, ValueError, ArithmeticError) as err:
             raise XMLSchemaValidationError(self, value, reason=str(err)) from None
 
 
